@@ -354,6 +354,8 @@ FormsOf(kinds) ==
 FormJson(f, kinds) ==
   LET ks == SetToSeq(kinds) IN
   [name |-> f.name, ge |-> f.ge, gl |-> f.gl,
+   \* the kind maps as registered (the slot table below names only the function that WINS per kind and phase)
+   ek |-> SetToSeq(f.ek \cap kinds), lk |-> SetToSeq(f.lk \cap kinds),
    slots |-> [i \in 1..Len(ks) |-> <<ks[i], Slot(f, ks[i], "enter"), Slot(f, ks[i], "leave")>>]]
 
 \* ----------------------------------------------------- lazy policies
